@@ -571,3 +571,45 @@ func SelfTest(f *Family, tier string) int {
 		base.Ok, npanic, fl.Viol, fl.Known, base.Known)
 	return 0
 }
+
+// IsUnitReplay reports whether a replay file holds a runtime unit (re-executable on its own).
+func IsUnitReplay(path string) bool {
+	b, err := os.ReadFile(path)
+	if err != nil {
+		return false
+	}
+	var m map[string]json.RawMessage
+	if json.Unmarshal(b, &m) != nil {
+		return false
+	}
+	_, ok := m["unit"]
+	return ok
+}
+
+// ReplayTierSeed recovers tier and seed of the run that wrote a replay file: from the seed<N>- prefix of its name and
+// the reports-<tier>-seed<N>.ndjson log next to it.
+func ReplayTierSeed(path string) (string, string) {
+	seed := ""
+	base := filepath.Base(path)
+	if strings.HasPrefix(base, "seed") {
+		for _, c := range base[4:] {
+			if c < '0' || c > '9' {
+				break
+			}
+			seed += string(c)
+		}
+	}
+	tier := "quick"
+	if st, err := os.Stat(path); err == nil {
+		// the newest report log of that seed written not later than a minute after the replay file
+		for _, t := range []string{"thorough", "quick"} {
+			if ls, err := os.Stat(filepath.Join(filepath.Dir(path), "reports-"+t+"-seed"+seed+".ndjson")); err == nil {
+				if d := ls.ModTime().Sub(st.ModTime()); d > -10*time.Minute && d < 10*time.Minute {
+					tier = t
+					break
+				}
+			}
+		}
+	}
+	return tier, seed
+}
